@@ -44,4 +44,89 @@ PROPS = {
         ["incarnations are u16 (hypothesis inc <= 65535 of the theorems; the Rust type guarantees it)",
          "identity laws: == is (addr, gen) equality; same address and different identity implies different generation; win_addr_conflict is 'greater generation'"],
     ),
+
+    "C06": P(
+        "Foca never panics",
+        {
+            "reservoir sampling index, feed estimate division, u16 counters, u16 item length (sending path)": "theorem (full for max_packet_size <= 65535, any codec/handler/oracle): choose_members_no_panic, member_section_no_panic, custom_tail_no_panic, counters_stay_in_range",
+            "send buffer capacity assertion after set_config": "was false (finding F1, fixed by a fix: commit); now covered by correspondence in a debug-assertions build (model site sendBufCap) and by the search",
+            "all other panic sites (receive path, timers, API calls), both build modes": "partial: explicit Stuck.panic constructors in the model; shown unreachable only by correspondence (debug-assertions and release builds, catch_unwind around every call) and search, not by a theorem",
+            "Config::new_lan / new_wan for every NonZeroU32": "not modelled (floating point); native exhaustive/strided execution in the search",
+        },
+        RULE_HIST + "search: hostile profile (40% malformed datagrams: truncations, bit flips, trailing bytes, oversized, random bytes; crafted timers; every API call incl. set_config) on real instances in a debug-assertions build with catch_unwind; Config constructors over powers of ten, 2^k boundaries and strided values (all 2^32-1 values in the thorough tier).",
+        ["user-supplied Codec, Runtime, BroadcastHandler and Identity do not panic", "allocation failure is out of scope", "theorems assume max_packet_size <= 65535 (larger packets: search only)"],
+    ),
+    "C07": P(
+        "Every emitted datagram is well-formed, bounded and accepted by its peer",
+        {
+            "at most max_packet_size bytes; header = current identity, incarnation, destination, message; one datagram per send; only backlogs change": "theorem (full, any codec/handler/oracle): datagram_bounded_and_headed",
+            "Announce and TurnUndead carry nothing; Broadcast has no member section": "theorem (full): bare_messages_carry_nothing, broadcast_has_no_member_section",
+            "count followed by exactly that many members, read back by the receiver loop": "theorem (full for lawful codecs): section_reads_back",
+            "Feed lists only active members other than the receiver": "theorem (full): feed_candidates; 'other than the sender' follows from own-address-never-active (C09/C19 theorems)",
+            "custom items length-prefixed": "theorem: custom_item_framing",
+            "peer accepts without Decode/Malformed error": "partial: section_reads_back is the core; whole-datagram acceptance by handle_data is checked by search (a real peer instance handles every emitted datagram) and correspondence",
+        },
+        RULE_HIST + "search: every datagram of every generated history is parsed by an independent grammar parser (written against the doc comment of Header) and fed to a fresh real peer instance with the same codec and packet size; packet sizes swept from just-fits-a-header upwards, all three codecs.",
+        ["Codec contract: decode(encode(x) ++ rest) = (x, rest) for u16-range values (proved for the three codecs in C20)"],
+    ),
+    "C08": P(
+        "Notifications faithfully mirror membership and connection state",
+        {
+            "MemberUp/MemberDown/Rename emitted exactly as the active set changes": "theorem (full): summary_matches_transition, notifications_follow_summary",
+            "num_members equals the number of active records": "theorem (full): active_records_move_with_summary, counter_tracks_active_records",
+            "Active only from idle with an active member; Idle only when none is left": "theorem (full, one call of adjust_connection_state): connection_transitions",
+            "replay of all notifications equals iter_members after every call (whole histories)": "partial: the per-step lemmas above are not yet chained into an invariant over all operations; checked by search (replay oracle) and correspondence",
+            "AccumulatingRuntime yields the same effects in the same order": "theorem over the FIFO queue model: accumulating_runtime_is_fifo; the real type is run side by side on every search history",
+        },
+        RULE_HIST + "search: notification replay oracle (mirror set vs iter_members/num_members after every call, state machine of Active/Idle/Defunct/Rejoin with causes) on every history, with a twin instance driven through AccumulatingRuntime.",
+        ["histories in which a call fails with an Encode error (header larger than max_packet_size) stop being judged from that call on"],
+    ),
+    "C09": P(
+        "One record per address; identities only move forward; own address never active",
+        {
+            "never two records with one address; grows only for new addresses": "theorem (full, every RNG draw): one_record_per_address, known_address_keeps_addresses, grows_only_for_new_addresses",
+            "identity replaced only by a conflict winner, reported as Rename": "theorem (full): replaced_only_by_conflict_winner, rename_is_notified",
+            "own address never active": "theorem (full at the Members layer + apply_many normalisation): own_address_never_active, C19.own_address_updates_become_down",
+            "data from own identity/address rejected before any change": "theorem (full): data_from_own_address_is_rejected",
+            "payload of a superseded or Down sender discarded; never falls back to a superseded identity": "partial: follows from replaced_only_by_conflict_winner per step; whole-history statement checked by search and correspondence only",
+        },
+        RULE_HIST + "search: per-call oracle on real instances over domains with three generations per address including the own address (duplicate addresses, active own-address records, size vs addresses told, replacement by non-winners, missing Rename, generation fallback, payload of dead senders).",
+        ["change_identity is only called with an identity whose address is not currently listed (documented use); histories are not judged after a call that violates this",
+         "identity laws (see C01)"],
+    ),
+    "C10": P(
+        "Incarnation discipline, self-refutation and reaction to one's own death",
+        {
+            "refutation: suspicion at k >= own makes the incarnation k+1 (> k), older suspicion leaves it alone, identity kept": "theorem (full below MAX, any codec/oracle): suspicion_is_refuted, refutation_exceeds_suspicion (over the generated comparison table)",
+            "Alive about self ignored; reset puts the incarnation back to 0": "theorem (full): alive_about_self_is_ignored, reset_restarts_incarnation",
+            "Down about self: Defunct unless a differing, winning renewed identity exists": "theorem (full): no_rejoin_without_winning_identity, down_without_renewal_is_defunct, bump_renews_to_a_winner",
+            "incarnation monotone over whole histories; never fabricates incarnations of others; rejoin gossips Down(old)": "partial: checked by search (oracle with a ghost 'told' map) and correspondence, no whole-history theorem yet",
+        },
+        RULE_HIST + "search: per-call oracle over the boundary incarnations 0/1/65534/65535, suspicions older/equal/newer than own, all four renew policies (none, bump, same, lose).",
+        ["histories stop being judged after an Encode error (header larger than max_packet_size)"],
+    ),
+    "C11": P(
+        "Suspicion timeout takes effect iff unrefuted; Down is final until forgotten",
+        {
+            "effect iff same identity, same incarnation, not Down": "theorem (full): timeout_on_same_identity, timeout_on_superseded_identity (over the generated can_change table)",
+            "stale-epoch timeout: no effect at all": "theorem (full): stale_timeout_is_noop",
+            "cancelled timeout: no state change, no datagram (no TurnUndead), no notification": "theorem (full, for states whose connection state agrees with the member count): cancelled_timeout_is_noop, unsuccessful_summary_is_silent - false before the fix: commit for finding F2",
+            "Down never changes": "theorem (full): down_is_terminal, C01.down_is_final",
+            "effective timeout: MemberDown, Down gossip, forget timer, TurnUndead; forget-timer removes exactly that identity": "partial: search oracle (complete case table on the real crate) and correspondence",
+        },
+        RULE_HIST + "search: per-call oracle judging every ChangeSuspectToDown timer the instance itself scheduled (effective vs cancelled vs stale), plus Down-finality tracking across the history.",
+        ["a duplicate delivery of a timeout after its record was forgotten and an older identity of the address reappeared is the documented excluded point (the timer's identity wins the conflict)"],
+    ),
+    "C19": P(
+        "Foca never chooses its own address as a destination",
+        {
+            "periodic announce to down members never targets the own address": "theorem (full, any RNG draws): announce_to_down_never_own_address - false before the fix: commit for finding F5",
+            "gossip / periodic announce / broadcast targets are active listed members, hence not the own address": "theorem (full given the invariant): chosen_targets_are_active_members, chosen_targets_not_own_address",
+            "invariant: no active record bears the own address": "theorem (full at the Members layer): own_inactive_preserved, own_address_updates_become_down",
+            "probes, replies": "partial: probe target comes from Members::next (active records), replies go to the sender whose address was checked (C09.data_from_own_address_is_rejected); composition checked by search and correspondence",
+        },
+        RULE_HIST + "search: destination of every send compared with the instance's address on histories that teach it older/newer identities of its own address, all periodic tasks enabled.",
+        ["relays towards a target named by a peer (IndirectPing, ForwardedAck) and explicit announce(dst) are outside the guarantee",
+         "change_identity only to unlisted addresses (documented use)"],
+    ),
 }
